@@ -273,6 +273,7 @@ type propUnit struct {
 	Lite    bool     `json:"lite,omitempty"`
 	Bounded string   `json:"bounded,omitempty"` // non-empty: this unit is a bounded stand-in; the text states the bound
 	Tier    string   `json:"tier,omitempty"`    // "thorough": only in the thorough tier
+	Timeout int      `json:"timeout,omitempty"` // per-query CPU seconds for this unit (overrides the property's)
 	Depth   *int     `json:"depth,omitempty"`   // inline depth for callees without contract (default 4)
 	Locks   []string `json:"locks,omitempty"`   // lite units: mutex field names to track (default all)
 	Only    []string `json:"only,omitempty"`    // claim only obligations matching these patterns (the others are dropped, not assumed)
@@ -435,6 +436,7 @@ func cmdCheck(args []string) {
 		funcs                                                                          []string
 		byBackend                                                                      = map[string]int{}
 		solverTime                                                                     float64
+		slow                                                                           []slowQ
 		unmodelled                                                                     = map[string]map[string]int{}
 		trusted                                                                        = map[string]bool{}
 		assumedCon                                                                     = map[string]bool{}
@@ -478,7 +480,14 @@ func cmdCheck(args []string) {
 				defer uwg.Done()
 				usem <- struct{}{}
 				defer func() { <-usem }()
-				g, res, err := verifyFunc(w, fn, u.Lite, u.depth(), u.Exclude, u.Locks, u.Only, dischargeOpts{dir: smtDir, timeout: timeout, parallel: parallelism(), cross: *tier == "thorough", keep: *keep})
+				uto := timeout
+				if u.Timeout > 0 {
+					uto = u.Timeout
+					if *tier == "thorough" {
+						uto *= 6
+					}
+				}
+				g, res, err := verifyFunc(w, fn, u.Lite, u.depth(), u.Exclude, u.Locks, u.Only, dischargeOpts{dir: smtDir, timeout: uto, parallel: parallelism(), cross: *tier == "thorough", keep: *keep})
 				outs[ui] = unitOut{g, res, err, fn}
 			}(ui, u, fn)
 		}
@@ -510,6 +519,7 @@ func cmdCheck(args []string) {
 			}
 			for _, r := range res {
 				solverTime += r.secs
+				slow = append(slow, slowQ{r.obl.name, r.secs, r.solver})
 				if r.obl.cover {
 					coverN++
 					if r.status == "vacuous" {
@@ -588,6 +598,7 @@ func cmdCheck(args []string) {
 		"functions_under_contract":              funcs,
 		"by_backend":                            byBackend,
 		"solver_time_s":                         float64(int(solverTime*100)) / 100,
+		"slowest_queries":                       slowest(slow, 12),
 		"load_ssa_s":                            float64(int(loadS*100)) / 100,
 		"cover_checks":                          coverN,
 		"unmodelled_instructions":               unmodelled,
@@ -630,4 +641,20 @@ func cmdCheck(args []string) {
 	if len(engineErrors) > 0 {
 		os.Exit(2)
 	}
+}
+
+type slowQ struct {
+	name   string
+	secs   float64
+	solver string
+}
+
+// slowest: the n slowest queries of a run (CPU seconds as measured by wall time of the solver process), for the evidence.
+func slowest(qs []slowQ, n int) []string {
+	sort.Slice(qs, func(i, j int) bool { return qs[i].secs > qs[j].secs })
+	var out []string
+	for i := 0; i < len(qs) && i < n; i++ {
+		out = append(out, fmt.Sprintf("%.1fs %s %s", qs[i].secs, qs[i].solver, qs[i].name))
+	}
+	return out
 }
